@@ -36,6 +36,9 @@ pub enum Dev {
     Seed { seed: u64 },
     /// latency override of one adapter (0 discovery, 1 filter, 2 strategy)
     Latency { adapter: usize, ms: u64 },
+    /// script step `step` is sent in the same burst as the step before it instead of waiting for the
+    /// server's reaction (the same byte stream, arriving coalesced)
+    Coalesce { step: usize },
 }
 
 #[derive(Clone, Debug, Serialize, Deserialize, PartialEq)]
@@ -45,7 +48,7 @@ pub struct Spec {
 }
 
 pub fn scenario_names() -> Vec<&'static str> {
-    vec!["status", "login-transfer", "pipelined-login-transfer", "cookie-transfer", "login-no-target", "big-frames-slow-discovery", "slow-discovery", "slow-filter", "slow-strategy"]
+    vec!["status", "login-transfer", "pipelined-login-transfer", "eager-login-transfer", "cookie-transfer", "eager-cookie-transfer", "login-no-target", "big-frames-slow-discovery", "slow-discovery", "slow-filter", "slow-strategy"]
 }
 
 fn scenario(name: &str) -> Case {
@@ -64,9 +67,12 @@ fn scenario(name: &str) -> Case {
         "login-transfer" => case.script = Login::default().steps(),
         // handshake + login start in one burst, login acknowledged + client information in one burst
         "pipelined-login-transfer" => case.script = Login { pipelined: true, ..Default::default() }.steps(),
-        "cookie-transfer" => {
+        // everything that does not need an answer from the server in one burst: handshake + login start +
+        // cookie answers, then Encryption Response + Login Acknowledged + Client Information
+        "eager-login-transfer" => case.script = Login { eager: true, ..Default::default() }.steps(),
+        "cookie-transfer" | "eager-cookie-transfer" => {
             let cookie = valid_cookie(SECRET, 5, &case.cfg.client_addr.to_string(), CK_NAME, CK_UUID, &[]);
-            case.script = Login { intent: 3, auth_cookie: Some(Some(cookie)), ..Default::default() }.steps();
+            case.script = Login { intent: 3, auth_cookie: Some(Some(cookie)), eager: name.starts_with("eager"), ..Default::default() }.steps();
         }
         "login-no-target" => {
             case.script = Login { locale: "de_de".into(), ..Default::default() }.steps();
@@ -116,6 +122,11 @@ fn apply(case: &mut Case, devs: &[Dev]) {
             Dev::OneByteReads => case.transport.read_chunk = Some(1),
             Dev::OneByteWrites => case.transport.write_chunk = Some(1),
             Dev::Seed { seed } => case.rng_seed = *seed,
+            Dev::Coalesce { step } => {
+                if let Some(st) = case.script.get_mut(*step) {
+                    st.when = When::With;
+                }
+            }
             Dev::Latency { adapter, ms } => match adapter {
                 0 => case.adapters.disc_ms = *ms,
                 1 => case.adapters.filter_ms = *ms,
@@ -262,6 +273,12 @@ fn classify(base: &Base, devs: &[Dev]) -> String {
                 keys.push("adapter-latency".into());
                 continue;
             }
+            Dev::Coalesce { step } => {
+                let what = base.case.script.get(*step).map(|s| format!("{:?}", s.act)).unwrap_or_default();
+                let what: String = what.chars().take_while(|c| c.is_ascii_alphanumeric()).collect();
+                keys.push(format!("coalesced-arrival:{what}"));
+                continue;
+            }
         };
         let Some((start, len, emitted, _)) = frames.iter().find(|(s, l, _, _)| offset >= *s && offset < s + l).copied() else {
             keys.push("split-outside-stream".into());
@@ -337,6 +354,12 @@ fn run_spec(base: &Base, spec: &Spec) -> (Obs, Option<(String, String)>, bool) {
 
 fn single_devs(base: &Base, thorough: bool) -> Vec<Dev> {
     let mut v = vec![Dev::OneByteReads, Dev::OneByteWrites];
+    // every step that does not need the server's previous answer, sent together with the step before it
+    for (k, s) in base.case.script.iter().enumerate().skip(1) {
+        if matches!(s.when, When::Idle) && !matches!(s.act, Act::EncResponse(_)) {
+            v.push(Dev::Coalesce { step: k });
+        }
+    }
     let n = base.obs.emitted;
     let mut events: Vec<Ms> = base.ticks.iter().copied().chain(base.completions.iter().copied()).collect();
     events.sort();
@@ -408,6 +431,20 @@ pub fn run(cli: Cli) -> ! {
         println!("pair {pair}: re-running the interleaved pairs (cheap)");
     } else if let Some(case) = cli.replay.clone() {
         let spec: Spec = serde_json::from_value(case["spec"].clone()).unwrap_or_else(|e| common::machinery(&format!("bad replay: {e}")));
+        if spec.devs.is_empty() {
+            // a burst scenario compared with the lock-step scenario of its family
+            let head = if spec.scenario.contains("cookie") { "cookie-transfer" } else { "login-transfer" };
+            let (first, b) = (baseline(head, &[]), baseline(&spec.scenario, &[]));
+            println!("lock-step ({head}): {:?} -> {:?}", first.obs.kinds(), first.obs.result);
+            println!("bursts ({}): {:?} -> {:?}, consumed {} of {}", spec.scenario, b.obs.kinds(), b.obs.result, b.obs.consumed, b.obs.emitted);
+            if observable(&b.obs) != observable(&first.obs) || b.obs.garbled.is_some() || b.obs.consumed != b.obs.emitted {
+                rep.violation(Violation { key: "coalesced-arrival-changes-behaviour".into(), text: "the same bytes arriving in bursts change what the connection does".into(), replay: case.clone(), weight: 0 });
+            }
+            rep.set("states", json!(2));
+            rep.set("transitions", json!(2));
+            rep.set("traces_validated_against_impl", json!(2));
+            rep.finish();
+        }
         let pre: Vec<Dev> = spec.devs.iter().filter(|d| matches!(d, Dev::Latency { .. })).cloned().collect();
         let base = baseline(&spec.scenario, &pre);
         let (a, va, ua) = run_spec(&base, &spec);
@@ -439,10 +476,30 @@ pub fn run(cli: Cli) -> ! {
         common::machinery("could not find seeds for all 64 select-draw patterns");
     }
     let mut specs_total = 0u64;
+    // the same byte stream sent lock-step, partly pipelined and in the largest possible bursts: one behaviour
+    for family in [vec!["login-transfer", "pipelined-login-transfer", "eager-login-transfer"], vec!["cookie-transfer", "eager-cookie-transfer"]] {
+        let first = baseline(family[0], &[]);
+        for other in &family[1..] {
+            let b = baseline(other, &[]);
+            cn.runs.fetch_add(1, Ordering::Relaxed);
+            if observable(&b.obs) != observable(&first.obs) || b.obs.garbled.is_some() || b.obs.consumed != b.obs.emitted {
+                rep.violation(Violation {
+                    key: "coalesced-arrival-changes-behaviour".into(),
+                    text: format!("scenario {other} (the bytes of {} arriving in bursts): {:?} -> {:?}, consumed {} of {}; lock-step: {:?} -> {:?}", family[0], b.obs.kinds(), b.obs.result, b.obs.consumed, b.obs.emitted, first.obs.kinds(), first.obs.result),
+                    replay: json!({"spec": Spec { scenario: other.to_string(), devs: vec![] }}),
+                    weight: 1,
+                });
+            }
+        }
+    }
     for name in scenario_names() {
         let base = baseline(name, &[]);
         // the baseline must be a complete, undisturbed run
         if base.obs.garbled.is_some() || base.obs.consumed != base.obs.emitted || matches!(base.obs.result, RunResult::Panic(_)) {
+            if name.starts_with("eager") || name.starts_with("pipelined") {
+                // already reported by the family comparison above; its deviations cannot be judged against it
+                continue;
+            }
             common::machinery(&format!("baseline of scenario {name} is not clean: {:?}", base.obs.result));
         }
         let b2 = crate::sim::run(&base.case);
